@@ -327,7 +327,7 @@ def _c16_tsan(prop, tier, seed, rundir, merged, env, root, log):
         merged["counters"]["tsan_runs_ok"] = 0
         return {"tsan": info}
     rnd = random.Random(seed * 7919 + (1 if tier == "quick" else 2))
-    scen = ([f"cell{k}" for k in range(12)] + ["isolated", "code", "failing", "iterator", "appends", "reads", "printing", "sites", "sites", "mixed", "mixed", "polling", "polling", "files"] + [f"readers{k}" for k in range(4)] + [f"cross{k}" for k in range(12)])
+    scen = ([f"cell{k}" for k in range(12)] + ["isolated", "code", "failing", "iterator", "appends", "reads", "printing", "sites", "sites", "mixed", "mixed", "polling", "polling", "files", "stdout"] + [f"readers{k}" for k in range(4)] + [f"cross{k}" for k in range(12)])
     specs = []
     reps = 2 if tier == "quick" else 24
     for r in range(reps):
@@ -397,7 +397,7 @@ PROPS["C16"] = {
             "each update is a bijection (+= 1, -= 1, *= 3, ^= unique bit, |= own bit, &= clear own bit, <<= 1, >>= 1, /= 3 on 3^39, **= 3 on odd values, %= m, = unique value), so atomicity <=> final content is the closed form and the multiset of yielded values is the sequential chain; "
             "(isolated) 15 functions using every lazily initialised helper (map, filter, iterate, type filter, reducers, modules, stdlib) first touched concurrently, results compared with the sequential run; (code) one parsed Code executed from all threads; "
             "(readers) half the threads print a cell that contains itself (through an array, a tuple, a struct or another cell) and a cell nested in a cell while the others assign; (failing) threads increment / apply failing compound assignments (/= 0, %= 0, <<= 64, >>= -1, **= -1) / read one cell: every failure reports its documented error and leaves the cell as it was; (iterator) one `a~` value pulled from all threads: afterwards its cursor stands at the number of pulls; (printing) threads print values that contain a cell while others update it: every text shows a content the cell held; the isolated set also holds functions whose run creates state (default cell of an exhausted `? mut int`, closure counters, iterator positions). A run that makes no progress is inspected with `gdb thread apply all bt`: threads parked in RwLock acquisition = deadlock (violation), otherwise inconclusive. "
-            "Plus Miri (cargo +nightly miri run, several schedule seeds) on miniature versions of the same scenarios: data races, deadlocks, UB in the dependency code actually executed. Plus a ThreadSanitizer build of the same harness (nightly, -Zsanitizer=thread -Zbuild-std so std's locks and atomics are instrumented): every scenario is run again as a child of the instrumented binary (84 runs quick, 1008 thorough); any ThreadSanitizer report (data race, lock-order inversion) is a violation, and the scenario's own history oracle runs too. distinct_nontrivial = distinct (scenario, threads, size, yield, run) executions.",
+            "Plus Miri (cargo +nightly miri run, several schedule seeds) on miniature versions of the same scenarios: data races, deadlocks, UB in the dependency code actually executed. Plus a ThreadSanitizer build of the same harness (nightly, -Zsanitizer=thread -Zbuild-std so std's locks and atomics are instrumented): every scenario is run again as a child of the instrumented binary (86 runs quick, 1032 thorough); any ThreadSanitizer report (data race, lock-order inversion) is a violation, and the scenario's own history oracle runs too. distinct_nontrivial = distinct (scenario, threads, size, yield, run) executions.",
     "assumptions": COMMON_ASSUME + ["schedules explored are those the OS scheduler, the injected yields and Miri's seeds produce - a sample, not all interleavings",
                                     "a stall is decided by the thread dump (all blocked in lock acquisition), never by elapsed time alone"],
     "floors": {"quick": {"runs": 50, "operations": 12500, "shape:assignment_operators": 12, "shape:scenarios": 20, "miri_runs_ok": 4, "tsan_runs_ok": 45},
@@ -429,6 +429,7 @@ _EXTRA_FLOORS = {
     "C12": {"order-family-cases": 5000, "match-coverage:accepted": 25, "loop-value-cases": 100},
     "C14": {"twin-grouping-cases": 3000, "float-chain-discriminating-cases": 1100},
     "C15": {"deep-types": 90, "field-name-types": 1000},
+    "C16": {"stdout-rows-read": 1000},
     "C17": {"fixed-histories": 20},
     "C18": {"fs-fault-states": 75},
     "C19": {"scalar-matrix-cases": 1200, "scalar-matrix-table-cases": 1200, "wide-value-cases": 700},
